@@ -18,6 +18,7 @@ type OblResult struct {
 	Ms      int64             `json:"ms"`
 	Model   map[string]string `json:"model,omitempty"`
 	Raw     string            `json:"raw,omitempty"`
+	Input   map[string]any    `json:"input,omitempty"`
 	Answers map[string]string `json:"answers,omitempty"`
 }
 
@@ -240,6 +241,9 @@ func (e *Engine) solveOne(o *Oblig, dir, base string, timeoutS int) {
 		cases = append(cases, tAnd(none...)) // exhaustiveness: the remaining case
 	}
 	var total int64
+	if o.Expect == "sat" && timeoutS > 3 {
+		timeoutS = 3 // vacuity canaries only need "not unsat"
+	}
 	for ci, cs := range cases {
 		text := e.smtText(o, "", cs)
 		ans, solver, out, ms, all := runQuery(dir, fmt.Sprintf("%s_%d", base, ci), text, timeoutS, terms)
@@ -259,11 +263,13 @@ func (e *Engine) solveOne(o *Oblig, dir, base string, timeoutS int) {
 		case ans == "sat":
 			res.Status = "refuted"
 			res.Model = parseValues(out, terms)
+			res.Input = modelInput(o, res.Model)
 			res.Raw = trunc(out, 4000)
 		default:
 			res.Status = "unknown"
 			if out != "" {
 				res.Model = parseValues(out, terms)
+				res.Input = modelInput(o, res.Model)
 			}
 			res.Raw = trunc(out, 2000)
 		}
@@ -279,4 +285,107 @@ func trunc(s string, n int) string {
 		return s[:n] + "..."
 	}
 	return s
+}
+
+// smtNum parses an SMT numeral value: 5, (- 5), 2.0, (/ 1.0 3.0), (- (/ 1.0 3.0)), #x.. bit-vectors.
+func smtNum(v string) (float64, bool) {
+	v = strings.TrimSpace(v)
+	if strings.HasPrefix(v, "#x") {
+		var u uint64
+		if _, err := fmt.Sscanf(v[2:], "%x", &u); err == nil {
+			return float64(int64(u)), true
+		}
+		return 0, false
+	}
+	if strings.HasPrefix(v, "(- ") {
+		f, ok := smtNum(v[3 : len(v)-1])
+		return -f, ok
+	}
+	if strings.HasPrefix(v, "(/ ") {
+		parts := strings.Fields(v[3 : len(v)-1])
+		if len(parts) == 2 {
+			a, ok1 := smtNum(parts[0])
+			b, ok2 := smtNum(parts[1])
+			if ok1 && ok2 && b != 0 {
+				return a / b, true
+			}
+		}
+		return 0, false
+	}
+	var f float64
+	if _, err := fmt.Sscanf(v, "%g", &f); err == nil {
+		return f, true
+	}
+	return 0, false
+}
+
+// modelInput turns a solver model into concrete parameter values (JSON-able):
+// ints, bools, reals, byte/int slices (first 12 elements), strings (first 8 bytes).
+func modelInput(o *Oblig, m map[string]string) map[string]any {
+	if m == nil {
+		return nil
+	}
+	in := map[string]any{}
+	num := func(t string) (float64, bool) {
+		if n, ok := isIntLit(t); ok {
+			return float64(n), true
+		}
+		v, ok := m[t]
+		if !ok {
+			return 0, false
+		}
+		return smtNum(v)
+	}
+	for _, p := range o.Params {
+		switch v := p.V.(type) {
+		case Sc:
+			switch v.S {
+			case SInt, SReal, SBV:
+				if f, ok := num(v.T); ok {
+					in[p.Name] = f
+				}
+			case SBool:
+				if b, ok := m[v.T]; ok {
+					in[p.Name] = strings.TrimSpace(b) == "true"
+				}
+			case SStr:
+				if ln, ok := num(app("slen", v.T)); ok && ln >= 0 && ln <= 8 {
+					bs := []any{}
+					for k := 0; k < int(ln); k++ {
+						if c, ok := num(app("sat", v.T, tInt(int64(k)))); ok {
+							bs = append(bs, c)
+						} else {
+							bs = append(bs, float64(65))
+						}
+					}
+					in[p.Name] = bs
+				}
+			}
+		case Sl:
+			arr, ok := v.Arr.(Sc)
+			if !ok {
+				continue
+			}
+			ln, ok := num(v.Len)
+			if !ok || ln < 0 || ln > 12 {
+				if ok {
+					in[p.Name+"!len"] = ln
+				}
+				continue
+			}
+			es := []any{}
+			for k := 0; k < int(ln); k++ {
+				if c, ok := num(tSel(arr.T, tInt(int64(k)))); ok {
+					es = append(es, c)
+				} else {
+					es = append(es, float64(0))
+				}
+			}
+			in[p.Name] = es
+		}
+	}
+	if len(in) == 0 {
+		return nil
+	}
+	return in
 }
